@@ -118,6 +118,7 @@ def execute(case):
     h.world = w = SimWorld(config_file=cfg)
     k = w.kernel
     nreload = 0
+    died = set()
     try:
         h.start()
         history = [copy.deepcopy(model)]
@@ -130,6 +131,15 @@ def execute(case):
                 break
             before = copy.deepcopy(model)
             kind = ed[0]
+            if kind == 'die':
+                # a worker dies and nothing has noticed yet when the next
+                # reloadconfig arrives
+                live_ = w.live(ed[1]) if ed[1] in model["watchers"] else []
+                if live_:
+                    k.external_death(live_[0], ["signal", 9])
+                    died.add(ed[1])
+                    classes.add('death-before-reload')
+                continue
             if kind == 'add':
                 if ed[1] in model["watchers"]:
                     continue
@@ -170,6 +180,11 @@ def execute(case):
             r = w.request('reloadconfig', {"waiting": True})
             ok = w.drain()
             nreload += 1
+            had_death = set(died)
+            if died:
+                # the daemon replaces the dead workers at its next check
+                w.full_check()
+                died.clear()
             rep = r.reply() or {}
             where = 'after %r' % (ed,)
             if w.blocked:
@@ -242,6 +257,8 @@ def execute(case):
                 new = sorted(w.eff_live(n))
                 changed = sorted(kk for kk in set(a) | set(b)
                                  if a.get(kk) != b.get(kk))
+                if n in had_death:
+                    continue      # its dead worker was rightly replaced
                 if not changed:
                     if old != new:
                         viols.append(Violation(
@@ -257,7 +274,7 @@ def execute(case):
                             'but pids went %r -> %r' % (
                                 n, b["numprocesses"], a["numprocesses"],
                                 old, new)))
-            if model == before:
+            if model == before and not had_death:
                 classes.add('noop-reload')
                 if (len(k.spawn_log), len(k.signal_log)) != (ns, nk):
                     viols.append(Violation(
@@ -316,7 +333,10 @@ def _strategy():
         for _ in range(draw(st.integers(1, 6))):
             kind = draw(st.sampled_from(['set', 'set', 'set', 'set', 'add',
                                          'remove', 'noop', 'revert',
-                                         'revert']))
+                                         'revert', 'die']))
+            if kind == 'die':
+                edits.append(['die', draw(st.sampled_from(names))])
+                continue
             if kind == 'set':
                 field = draw(st.sampled_from(
                     ['numprocesses', 'numprocesses', 'numprocesses', 'cmd',
